@@ -187,6 +187,33 @@ def tables_rule(chk, prog):
                         if k[0] == "lit":
                             inner = tables.unwrap(val, "Ok")
                             lit[k[1]] = inner
+    if not lit:
+        # no `match` on the token: the same table read off the MIR (`if token == "null" { .. }` chains, named constants)
+        from . import c15
+        pb_ = prog.bodies.get(P + "parse_literal")
+
+        def eq_lit(d):
+            if isinstance(d, tuple) and d and d[0] == "call" and core.re.search(c15.STR_EQ, d[1]) and len(d[2]) == 2:
+                lits = [a[1] for a in d[2] if isinstance(a, tuple) and a[0] == "lit" and isinstance(a[1], str)]
+                if len(lits) == 1:
+                    return lits[0]
+            return None
+        if pb_ is not None:
+            for i, blk in enumerate(pb_.blocks):
+                for s_ in blk["stmts"]:
+                    rv = s_.get("rv")
+                    if rv and rv.get("k") == "agg" and rv.get("agg") == "adt" and str(rv.get("adt", "")).endswith("value::Value") and rv.get("variant") in ("Null", "Bool"):
+                        gs = core.guards_dominating(prog, pb_, i)
+                        trues = [eq_lit(d) for s2, lab, d, info in gs if lab == "true" and eq_lit(d) is not None]
+                        if len(trues) == 1:
+                            if rv["variant"] == "Null":
+                                val = ("path", "humphrey_json::value::Value::Null")
+                            else:
+                                pay = describe(prog, pb_, rv["ops"][0])
+                                val = ("call", "humphrey_json::value::Value::Bool", [pay]) if pay[0] == "lit" else ("?", pay)
+                            lit[trues[0]] = val if lit.get(trues[0], val) == val else ("ambiguous",)
+                        else:
+                            lit[f"<{rv['variant']} under {trues}>"] = ("unconditional",)
     ok = lit.get("null") == ("path", "humphrey_json::value::Value::Null") and \
         lit.get("true") == ("call", "humphrey_json::value::Value::Bool", [("lit", True)]) and \
         lit.get("false") == ("call", "humphrey_json::value::Value::Bool", [("lit", False)]) and set(lit) == {"null", "true", "false"}
@@ -262,6 +289,18 @@ def number_gates(chk, prog):
                         gate = cond[1]
             chk.ob("R3.number_gate", p, "f64::from_str is reached only through a character-level grammar gate on the same token", gate is not None,
                    "the token goes straight to f64::from_str, which accepts a superset of JSON numbers (NaN, inf, +1, 01, .5, 1.)", where=b.where(blk))
+            if gate is not None:
+                # the gate's language, extracted from its MIR as a DFA (hv.charauto) and compared with the RFC 8259 number grammar
+                from .. import charauto
+                try:
+                    sc, trans, start = charauto.extract(prog, gate)
+                    diff = charauto.compare(sc, trans, start, *charauto.json_number_ref())
+                    chk.extra.setdefault("number_gate_dfa", []).append(f"{gate}: {len(trans)} scanner states over {len(sc.alphabet)} character classes, {sc.steps} abstract steps")
+                    words = "; ".join(f"{charauto.show_word(w)!r}: gate {'accepts' if a else 'rejects'}, RFC 8259 {'accepts' if r else 'rejects'}" for w, a, r in diff[:4])
+                    chk.ob("R3.number_grammar", gate, "the gate accepts exactly -?(0|[1-9][0-9]*)(.[0-9]+)?([eE][+-]?[0-9]+)? (DFA extracted from the MIR == reference DFA)", not diff,
+                           f"the number gate and the RFC 8259 grammar differ: {words}", where=prog.bodies[gate].file)
+                except charauto.Undecided as e:
+                    chk.extra.setdefault("number_gate_not_decided", []).append(f"{gate}: {e}")
         for blk, t in b.calls_to(r"num::<impl u(8|16|32)>::from_str_radix$"):
             n += 1
             tok = panics._strip(describe(prog, b, t["args"][0]))
@@ -534,7 +573,7 @@ def run(chk):
         "for the trailing_comma flag and the emptiness of the member vector), values follow a consumed colon and a quoted key; f64::from_str and "
         "from_str_radix are reached only through character-level gates on the same token; depth inc/dec are paired; members keep document order; the "
         "serialiser writes elements in stored order with the RFC separators.")
-    chk.not_decided = "the `iff` itself; that the number gate is the complete grammar; number values; pretty-printer layout; unpaired surrogates"
+    chk.not_decided = "the `iff` itself for whole documents; number values (f64::from_str); pretty-printer layout; unpaired surrogates; the number grammar when the gate is not a character scanner hv.charauto can model (reported as not decided)"
     chk.assumptions = ["rustc type checking / MIR construction / HIR match tables", "f64::from_str accepts at least every RFC 8259 number"]
     tables_rule(chk, prog)
     separators(chk, prog)
